@@ -20,6 +20,7 @@ def check(tier, seed):
     with C.WorkDir('C13') as wd:
         C.audit_sources()
         C.props_obligations(res, 'C13gen', wd)
+        C.tie_b_kernels(res, wd, ('cfgkeys',))
         gen_lines = list(res.assumption_lines)
         tb = C.tie_b(res, wd)
         if tb:
